@@ -80,5 +80,37 @@ func (c *Clock) FireDue() int {
 	}
 }
 
+// FireNext delivers one due timer - the oldest one (earliest instant, then creation order) or, with
+// newestFirst, the youngest one - and reports whether there was one. Delivering the timers of one instant one
+// at a time, each followed by a wait for quiescence, makes same-instant races a choice of the driver.
+func (c *Clock) FireNext(newestFirst bool) bool {
+	c.mu.Lock()
+	idx := -1
+	for i, tm := range c.timers {
+		if tm.at.After(c.now) {
+			continue
+		}
+		if idx < 0 {
+			idx = i
+			continue
+		}
+		b := c.timers[idx]
+		older := tm.at.Before(b.at) || (tm.at.Equal(b.at) && tm.id < b.id)
+		if older != newestFirst {
+			idx = i
+		}
+	}
+	if idx < 0 {
+		c.mu.Unlock()
+		return false
+	}
+	tm := c.timers[idx]
+	c.timers = append(c.timers[:idx], c.timers[idx+1:]...)
+	now := c.now
+	c.mu.Unlock()
+	tm.ch <- now
+	return true
+}
+
 // Set moves the clock to t and delivers what is due.
 func (c *Clock) Set(t time.Time) int { c.SetNow(t); return c.FireDue() }
